@@ -7,6 +7,7 @@
 package gorillamux
 
 import (
+	"fmt"
 	"net/http"
 	"net/url"
 	"regexp"
@@ -158,8 +159,15 @@ func makeServers(in openapi3.Servers) ([]srv, error) {
 		if lhs := strings.Index(serverURL, ":{"); lhs > 0 {
 			rest := serverURL[lhs+len(":{"):]
 			rhs := strings.Index(rest, "}")
+			if rhs < 0 {
+				return nil, fmt.Errorf("server URL %q: variable after the colon is not closed", server.URL)
+			}
 			portVariable := rest[:rhs]
-			portValue := server.Variables[portVariable].Default
+			variable := server.Variables[portVariable]
+			if variable == nil {
+				return nil, fmt.Errorf("server URL %q: variable %q is not declared", server.URL, portVariable)
+			}
+			portValue := variable.Default
 			serverURL = strings.ReplaceAll(serverURL, "{"+portVariable+"}", portValue)
 			varsUpdater = func(vars map[string]string) {
 				vars[portVariable] = portValue
